@@ -15,12 +15,14 @@ func init() {
 			ID: "C11", Title: "Add-path identifiers are unique per prefix and never exhausted spuriously", Level: "other",
 			Technique:   "typed-AST control-equivalence (counter update ⇔ map insert/delete), field-coverage of the identifier hash against the attribute comparison, key-provenance of the released path",
 			DesignRef:   "DESIGN.md §4 C11",
-			Decided:     "(1) the in-use counter tracks the cardinality of the id map: every `used++` is control-equivalent with the insertion of a new id, every `used--` with the delete of the id, and the exhaustion test reads that counter; (2) the attribute hash that keys identifiers (ComputeHash) and the one that groups queued announcements (ComputeHashWithPathID) read every attribute field that the path comparison BGPPath.Compare/BGPPathA.compare distinguishes (PathIdentifier excepted for the former) and the OTC attribute the export side writes — two paths that differ in a field outside the hash share an identifier for the same prefix; (3) the path handed to releasePath is the stored object found in the Adj-RIB-Out (the one that was hashed when the id was allocated), and the withdrawal handed to clients is that stored path.",
+			Decided:     "(1) the in-use counter tracks the cardinality of the id map: every `used++` is control-equivalent with the insertion of a new id, every `used--` with the delete of the id, and the exhaustion test reads that counter; (1b) the hash → id map and the id → refcount map gain and lose an entry under the same condition (an id's hash entry lives exactly as long as the id); (2) the attribute hash that keys identifiers (ComputeHash) and the one that groups queued announcements (ComputeHashWithPathID) read every attribute field that the path comparison BGPPath.Compare/BGPPathA.compare distinguishes (PathIdentifier excepted for the former) and the OTC attribute the export side writes — two paths that differ in a field outside the hash share an identifier for the same prefix; (3) the path handed to releasePath is the stored object found in the Adj-RIB-Out (the one that was hashed when the id was allocated), and the withdrawal handed to clients is that stored path.",
 			NotDecided:  "hash collisions (SHA-256, ignored); wrap-around search of a free id near 2^32-1; uniqueness over whole add/remove histories.",
 			TrustedBase: stdTrusted,
 		},
 		Run: runC11,
 		Controls: []Control{
+			{Name: "hash-entry-dropped-on-every-release", File: "routingtable/adjRIBOut/path_id_manager.go", Old: "\t\tdelete(fm.idByPath, hash)\n\t\tfm.used--\n\t}\n", New: "\t\tfm.used--\n\t}\n\tdelete(fm.idByPath, hash)\n", Expect: "hash-map-tracks-id-map"},
+			{Name: "refactor-release-single-lookup", Silent: true, File: "routingtable/adjRIBOut/path_id_manager.go", Old: "\tif _, exists := fm.idByPath[hash]; !exists {\n\t\treturn 0, fmt.Errorf(\"ID not found for path: %s\", p.Print())\n\t}\n\n\tid := fm.idByPath[hash]\n\tfm.ids[id]--\n\tif fm.ids[id] == 0 {\n\t\tdelete(fm.ids, fm.idByPath[hash])\n", New: "\tid, exists := fm.idByPath[hash]\n\tif !exists {\n\t\treturn 0, fmt.Errorf(\"ID not found for path: %s\", p.Print())\n\t}\n\n\tfm.ids[id]--\n\tif fm.ids[id] == 0 {\n\t\tdelete(fm.ids, id)\n"},
 			{Name: "used-decrement-outside-delete", File: "routingtable/adjRIBOut/path_id_manager.go", Old: "\t\tdelete(fm.idByPath, hash)\n\t\tfm.used--\n\t}\n", New: "\t\tdelete(fm.idByPath, hash)\n\t}\n\tfm.used--\n", Expect: "counter-tracks-map"},
 			{Name: "hash-drops-med", File: "route/bgp_path.go", Old: "\t\tb.BGPPathA.Origin,\n\t\tb.BGPPathA.MED,\n\t\tb.BGPPathA.EBGP,\n\t\tb.BGPPathA.BGPIdentifier,\n\t\tb.BGPPathA.Source.String(),\n\t\tb.Communities.String(),\n\t\tb.LargeCommunities.String(),\n\t\tb.BGPPathA.OriginatorID,", New: "\t\tb.BGPPathA.Origin,\n\t\tb.BGPPathA.Origin,\n\t\tb.BGPPathA.EBGP,\n\t\tb.BGPPathA.BGPIdentifier,\n\t\tb.BGPPathA.Source.String(),\n\t\tb.Communities.String(),\n\t\tb.LargeCommunities.String(),\n\t\tb.BGPPathA.OriginatorID,", Expect: "hash-covers-attributes"},
 			{Name: "release-with-parameter-path", File: "routingtable/adjRIBOut/adj_rib_out.go", Old: "a.pathIDManager.releasePath(sp)", New: "a.pathIDManager.releasePath(p)", Expect: "release-stored-path"},
@@ -39,12 +41,14 @@ func runC11(c *core.Ctx) {
 	}
 	// (1) -----------------------------------------------------------------------------------------
 	c.Floor("counter-tracks-map", 3)
+	c.Floor("hash-map-tracks-id-map", 4)
+	idByPath := p.Field(pkg, "pathIDManager", "idByPath")
 	for _, f := range p.MethodsOf(pkg, "pathIDManager") {
 		if f.Decl.Body == nil {
 			continue
 		}
 		c.Analysed(f)
-		var incs, decs, inserts, deletes []ast.Node
+		var incs, decs, inserts, deletes, hInserts, hDeletes []ast.Node
 		ast.Inspect(f.Decl.Body, func(n ast.Node) bool {
 			switch s := n.(type) {
 			case *ast.IncDecStmt:
@@ -60,6 +64,9 @@ func runC11(c *core.Ctx) {
 					if core.FieldOf(f.Pkg, l) == used {
 						c.Fail("counter-tracks-map", f.Name()+" assigns used", s.Pos(), "the in-use counter is assigned by something other than ++/--")
 					}
+					if ie, ok := core.Unparen(l).(*ast.IndexExpr); ok && idByPath != nil && core.FieldOf(f.Pkg, ie.X) == idByPath && s.Tok == token.ASSIGN {
+						hInserts = append(hInserts, s)
+					}
 					if ie, ok := core.Unparen(l).(*ast.IndexExpr); ok && core.FieldOf(f.Pkg, ie.X) == ids && s.Tok == token.ASSIGN && i < len(s.Rhs) {
 						if v := core.ConstOf(f.Pkg, s.Rhs[i]); v != nil && v.ExactString() == "1" {
 							inserts = append(inserts, s)
@@ -70,6 +77,9 @@ func runC11(c *core.Ctx) {
 				if id, ok := s.Fun.(*ast.Ident); ok {
 					if b, ok := f.Pkg.TypesInfo.Uses[id].(*types.Builtin); ok && b.Name() == "delete" && len(s.Args) == 2 && core.FieldOf(f.Pkg, s.Args[0]) == ids {
 						deletes = append(deletes, s)
+					}
+					if b, ok := f.Pkg.TypesInfo.Uses[id].(*types.Builtin); ok && b.Name() == "delete" && len(s.Args) == 2 && idByPath != nil && core.FieldOf(f.Pkg, s.Args[0]) == idByPath {
+						hDeletes = append(hDeletes, s)
 					}
 				}
 			}
@@ -95,6 +105,22 @@ func runC11(c *core.Ctx) {
 				c.Check(ok, "counter-tracks-map", f.Name()+" counter update has control-equivalent "+what, cn.Pos(), why)
 			}
 		}
+		// the attribute-hash → id map and the id → refcount map hold the same ids: an entry enters and leaves both under the same condition
+		pairMaps := func(what string, a, b []ast.Node, why string) {
+			for _, m := range a {
+				ok := false
+				for _, n := range b {
+					if core.SameSig(core.GuardSig(f, m), core.GuardSig(f, n)) {
+						ok = true
+					}
+				}
+				c.Check(ok, "hash-map-tracks-id-map", f.Name()+" "+what, m.Pos(), why)
+			}
+		}
+		pairMaps("hash entry inserted with the new id", hInserts, inserts, "the attribute hash is mapped to an id under a different condition than the id's insertion into the id map")
+		pairMaps("new id inserted with its hash entry", inserts, hInserts, "a new id enters the id map without its hash entry (under the same condition)")
+		pairMaps("hash entry deleted with the id", hDeletes, deletes, "the hash → id entry is deleted under a different condition than the id itself (e.g. on every release while the reference count is still positive): the next release of a path with the same attributes fails with `ID not found`, no withdrawal is sent for it, and the id is never freed")
+		pairMaps("id deleted with its hash entry", deletes, hDeletes, "the id leaves the id map while its hash entry stays: a later path with these attributes is announced with an id that is free for reuse by a different path of the same prefix")
 		pair("id insert", incs, inserts, "`used` is incremented under a different condition than the insertion of a new id into the id map: the counter drifts from the number of ids in use")
 		pair("id delete", decs, deletes, "`used` is decremented under a different condition than the delete of the id from the id map (e.g. on every release although the id stays allocated while its reference count is positive): the counter underflows to 2^32-1 and allocation reports exhaustion with ids free")
 		// exhaustion test reads the counter
